@@ -566,6 +566,9 @@ struct Runner {
         std::vector<std::pair<std::vector<uint64_t>, int>> seqs;
         for (uint64_t k : hist) { Outcome r = regen_isolated(k); seqs.push_back({r.rec, size_for(k)}); }
         Outcome chk = history_child_seqs(seqs);
+        // the replay file must be able to show the failure again: a history that fails once but not when replayed from its
+        // materialised sequences (timing-based signatures under load, mostly) is counted, not reported
+        if (chk.kind == Outcome::PASS || chk.kind == Outcome::DISCARD) { st.labels["flaky-" + pending.sig]++; fprintf(stderr, "[pbt] %s: history-dependent failure %s does not reproduce from its recorded sequences, ignored\n", opt.id.c_str(), pending.sig.c_str()); return false; }
         Outcome rep; rep.kind = Outcome::FAIL; rep.sig = pending.sig + ":history-dependent";
         rep.msg = pending.msg + " [passes on its own; fails after " + std::to_string(hist.size() - 1) + " earlier case(s) in the same process: state leaks between contexts" + (chk.kind == Outcome::PASS ? "; sequence replay did not reproduce" : "") + "]";
         rep.desc = pending.desc; rep.rec = seqs.back().first;
